@@ -828,4 +828,9 @@ def run(rep, ctx):
                      "%s: argument bounds [%s, %s]" % (label, lo, hi),
                      "%s hands the bounds [%s, %s] down to `%s`; sound are lower %s / upper %s (%s): an argument's variable is narrowed to values it need not have, which cuts feasible points off" %
                      (label, lo, hi, tgt, sorted(allowed[0]), sorted(allowed[1]), why))
+    # ---- K1: rounding of a fractional right-hand side in the preprocessor (the rule of C01.K2, which reads the same code) ---
+    # A comparison of an integer-valued body with a fractional constant is replaced by one with a rounded constant; rounding the
+    # wrong way makes the preprocessor fix the comparison's result (and bounds derived from it) at a value it does not have.
+    from .C01 import rule_K2 as _k2
+    _k2(rep, repo, rid="C06.K1")
     return rep
